@@ -153,13 +153,66 @@ def merge(per_cfg):
     return out
 
 
-def parser_value(st, cfg=None):
+GP = "crate::generic::parsers::generic_parser::GenericParser"
+
+
+def _api_parser(st, facts, foot, ia):
+    """the parser value obtained through its own API - default(), set_footer(F), set_implicit_assertion(A) - so that nothing is assumed
+    about how GenericParser keeps the two expected values (own fields, Option fields, a nested private struct); None when that cannot
+    be done on the current source (then the value is written down field by field)"""
+    def find(pat):
+        bs = [b for bid, b in facts.bodies.items() if re.search(pat, bid)]
+        return bs[0] if len(bs) == 1 else None
+    d = find(r"^<" + re.escape(GP) + r"<.*> as core::default::Default>::default$")
+    sf = find(re.escape(GP) + r"::<[^>]*>::set_footer$")
+    sa = find(re.escape(GP) + r"::<[^>]*>::set_implicit_assertion$")
+    if d is None or sf is None or sa is None:
+        return None
+    I = A.Interp(facts, MD.MODELS, max_paths=200)
+    I.concrete_maps = True
+
+    def one(outs):
+        ok_ = len(outs) == 1 and outs[0].kind == "return" and not outs[0].state.unmodelled and not any("undecided" in n for n in outs[0].state.notes)
+        return outs[0] if ok_ else None
+    n_cond, n_ev = len(st.cond), len(st.events)
+    o = one(I.run(d, [], st))
+    if o is None or o.state is not st:
+        return None
+    me = st.new_cell(o.value)
+    for body, arg in ((sf, foot), (sa, ia)):
+        o = one(I.run(body, [A.Ptr(me), arg], st))
+        if o is None or o.state is not st:
+            return None
+    del st.cond[n_cond:], st.events[n_ev:]
+    v = I.resolve(st, st.store.get(me))
+    return v if isinstance(v, A.Struct) and {"claims", "claim_validators"} <= set(v.fields) else None
+
+
+def api_state_decides(facts):
+    """True when the parser state of the parse-level contracts was obtained through default() / set_footer / set_implicit_assertion and
+    every parse method hands exactly those two values (with the token and the key) to the core call: what the setters store reaches
+    the authenticating call, however it is kept in between"""
+    foot = A.Struct("crate::core::footer::Footer", None, {"0": A.Seq("self.footer", A.Aff.sym("len(self.footer)"), kind="str")})
+    ia = A.Struct("crate::core::implicit_assertion::ImplicitAssertion", None, {"0": A.Seq("self.assertion", A.Aff.sym("len(self.assertion)"), kind="str")})
+    if _api_parser(A.State(), facts, foot, ia) is None:
+        return False
+    fs = [f for f in parse_contracts(facts, S.entry_points(facts)) if f.rule == "C03.R6"]
+    return len(fs) >= 8 and all(f.ok for f in fs)
+
+
+def parser_value(st, cfg=None, facts=None):
     expect, valid = cfg or (EXPECT, VALID)
     claims = MI.mapv("claims", [(A.StrV(k), A.Sym("expected_%s" % k, attrs={"expected_of": k})) for k in expect])
     vals = MI.mapv("claim_validators", [(A.StrV(k), A.Sym("validator_%s" % k, attrs={"validator": "V_%s" % k})) for k in valid])
     foot = A.Struct("crate::core::footer::Footer", None, {"0": A.Seq("self.footer", A.Aff.sym("len(self.footer)"), kind="str")})
     ia = A.Struct("crate::core::implicit_assertion::ImplicitAssertion", None, {"0": A.Seq("self.assertion", A.Aff.sym("len(self.assertion)"), kind="str")})
-    return A.Struct("crate::generic::parsers::generic_parser::GenericParser", None, {"version": A.UNIT, "purpose": A.UNIT, "claims": claims, "claim_validators": vals, "footer": foot, "implicit_assertion": ia})
+    if facts is not None:
+        v = _api_parser(st, facts, foot, ia)
+        if v is not None:
+            f = dict(v.fields)
+            f["claims"], f["claim_validators"] = claims, vals      # the two tables: named by the registration contracts (C15.R5, C16.R5)
+            return A.Struct(v.adt, v.variant, f)
+    return A.Struct(GP, None, {"version": A.UNIT, "purpose": A.UNIT, "claims": claims, "claim_validators": vals, "footer": foot, "implicit_assertion": ia})
 
 
 def _err_variant(I, o, r):
@@ -301,7 +354,7 @@ def verify_claims_table(facts, entries=None):
         out = []
         I = interp(facts)
         st = A.State()
-        me = st.new_cell(parser_value(st, cfg))
+        me = st.new_cell(parser_value(st, cfg, facts))
         outs = I.run(b, [A.Ptr(me), A.Seq("token", A.Aff.sym("len(token)"), kind="str")], st)
         undecided = [o for o in outs if o.kind != "return" or o.state.unmodelled or any("undecided" in n for n in o.state.notes)]
         if undecided or not outs:
@@ -343,7 +396,7 @@ def parse_level(facts, entries):
             tbl, ctr = [], []
             I = interp(facts, stubs=[(re.compile(r"paseto::Paseto<.*>>::(try_decrypt|try_verify)$"), _core_stub)])
             st = A.State()
-            me = st.new_cell(parser_value(st, cfg))
+            me = st.new_cell(parser_value(st, cfg, facts))
             outs = I.run(b, [A.Ptr(me), A.Seq("token", A.Aff.sym("len(token)"), kind="str"), A.Ptr(st.new_cell(A.Sym("key")))], st)
             und = [o for o in outs if o.kind != "return" or o.state.unmodelled or any("undecided" in n for n in o.state.notes)]
             if und or not outs:
@@ -404,7 +457,7 @@ def parse_contracts(facts, entries):
             return A.Sym("claims_result", attrs={"adt": "core::result::Result", "make_variant": lambda s2, sym, variant: A.ok(A.Sym("claims_json")) if variant == "Ok" else A.err(A.Sym("GenericParserError"))})
         I = interp(facts, stubs=[(re.compile(r"paseto::Paseto<.*>>::(try_decrypt|try_verify)$"), core_stub), (re.compile(r"GenericParser::<.*>::verify_claims$"), vc_stub)])
         st = A.State()
-        me = st.new_cell(parser_value(st))
+        me = st.new_cell(parser_value(st, None, facts))
         args = [A.Ptr(me), A.Seq("token", A.Aff.sym("len(token)"), kind="str"), A.Ptr(st.new_cell(A.Sym("key")))]
         outs = I.run(b, args, st)
         probs = []
@@ -491,7 +544,7 @@ def registration_contracts(facts):
                     st = A.State()
                     claims0 = dict((k, "oldE_" + k) for k in cs)
                     vals0 = dict((k, "oldV_" + k) for k in vs)
-                    pv = parser_value(st)
+                    pv = parser_value(st, None, facts)
                     pv.fields["claims"] = MI.mapv("claims", [(A.StrV(k), A.Sym(n, attrs={"expected_of": k})) for k, n in claims0.items()])
                     pv.fields["claim_validators"] = MI.mapv("claim_validators", [(A.StrV(k), A.Sym(n, attrs={"validator": n})) for k, n in vals0.items()])
                     if prelude:
